@@ -1,9 +1,57 @@
-(* C13 - placeholder; theorems are added as proofs land *)
-From Coq Require Import ZArith List.
-From NutsV Require Import model.Protocol.
+(* C13 - Failures in any chain surface as errors of the parallel sampler. *)
+From Coq Require Import ZArith List Bool Arith.
+From NutsV Require Import model.Protocol proofs.Protocol_facts.
 Import ListNotations.
-Example C13_model_runs :
-  replay_log 1 1 [(2, 0, 0, 0); (2, 1, 0, 0); (2, 4, 0, 0); (2, 5, 0, 0); (2, 7, 0, 0); (2, 8, 0, 1)]%Z
-  = [[1; 1; 8; 1]]%Z.
+
+(* the results channel holds exactly one result per finished chain *)
+Theorem C13_results_channel :
+  forall (n total : nat) (s : st), reach n total s ->
+    length (s_results s) = cnt is_done (s_chains s) /\
+    (existsb negb (s_results s) = true <-> exists c, In c (s_chains s) /\ c_pc c = PDone false).
+Proof. intros n total s H. split; [exact (I5_results_count n total s H) | exact (I5_false_iff_failed n total s H)]. Qed.
+Print Assumptions C13_results_channel.
+
+(* once a chain has failed, wait_timeout can never return Trace, in any continuation *)
+Theorem C13_error_surfaces_wait :
+  forall (n total : nat) (s : st) (evs : list ev) (s' : st) (c : chain),
+    reach n total s -> In c (s_chains s) -> c_pc c = PDone false -> run s evs = Some s' ->
+    step s' (EvUser (ERetWait 1%Z)) = None.
+Proof. exact I5_failed_never_trace. Qed.
+Print Assumptions C13_error_surfaces_wait.
+
+Theorem C13_trace_means_all_ok :
+  forall (n total : nat) (s s' : st),
+    reach n total s -> step s (EvUser (ERetWait 1%Z)) = Some s' ->
+    forall c, In c (s_chains s) -> c_pc c = PDone true.
+Proof. exact I5_wait_trace_all_ok. Qed.
+Print Assumptions C13_trace_means_all_ok.
+
+(* abort() returns Ok((None, trace)) only when no chain failed *)
+Theorem C13_error_surfaces_abort :
+  forall (n total : nat) (s s' : st),
+    reach n total s -> step s (EvUser (ERetAbort 1%Z)) = Some s' ->
+    forall c, In c (s_chains s) -> c_pc c <> PDone false.
+Proof. exact I5_abort_ok_no_failed. Qed.
+Print Assumptions C13_error_surfaces_abort.
+
+(* a return value always answers the pending call *)
+Theorem C13_return_matches_call :
+  forall (s : st) (c : cmd) (code : Z) (s' : st),
+    step s (EvUser (ERet c code)) = Some s' ->
+    s_user s = UCalling c /\ (code = 1%Z -> s_ctl s = KResponding c).
+Proof. exact ret_matches_call. Qed.
+Print Assumptions C13_return_matches_call.
+
+(* healthy chains are unaffected by the failure of another chain: frame *)
+Theorem C13_healthy_chains_unaffected :
+  forall (s : st) (i : nat) (e : cev) (s' : st),
+    chain_step s i e = Some s' ->
+    forall j, j <> i -> nth_error (s_chains s') j = nth_error (s_chains s) j.
+Proof. intros s i e s' H. exact (proj1 (chain_step_frame s i e s' H)). Qed.
+Print Assumptions C13_healthy_chains_unaffected.
+
+Example C13_nonvacuous :
+  replay_log 1 2 [(2, 0, 0, 0); (2, 1, 0, 0); (2, 4, 0, 0); (2, 8, 0, 0); (0, 2, 0, 0); (0, 3, 0, 2)]%Z
+  = [[0; 0; 9; 0]]%Z.
 Proof. vm_compute. reflexivity. Qed.
-Print Assumptions C13_model_runs.
+Print Assumptions C13_nonvacuous.
